@@ -237,16 +237,17 @@ Definition handle_event (mi : mirror) (e : event) : mirror * option rerr :=
   end.
 
 (** [mirror()]: initial state from [take_initial().unwrap_or_default()], [is_complete()],
-    [is_done()] (= [events.is_none()], i.e. subscribed after [done()]). *)
+    [is_done() && is_complete()]: [is_done()] = [events.is_none()] (subscribed after [done()]),
+    [is_complete()] = the snapshot was taken; an incremental mirror therefore starts not done and
+    becomes done when it handles the [Done] event (repair of F11, commit 290b96a). *)
 Definition mirror_init (md : mode) (s : obs) (max : N) : mirror :=
   {| m_hm := initial_map md s;
      m_complete := match md with Snapshot => true | Incremental => false end;
-     m_done := o_done s;
+     m_done := match md with Snapshot => o_done s | Incremental => false end;
      m_max := max |}.
 
 (** The spawned task: [loop { event = recv(); handle_event(event)?; if inner.done { break } }].
-    Returns the inner state and the [error] field.  Note that the loop also leaves when [done] was
-    already set *before* the event (incremental subscription made after [done()]). *)
+    Returns the inner state and the [error] field. *)
 Fixpoint mirror_task (mi : mirror) (evs : list event) : mirror * option rerr :=
   match evs with
   | [] => (mi, None)
@@ -292,8 +293,8 @@ Definition no_retain_mutation (ops : list op) : bool :=
                     | Retain dflt ds => negb (decision_writes dflt) && forallb (fun kd => negb (decision_writes (snd kd))) ds
                     | _ => true end) ops.
 
-(** F11: incremental subscription of a non-empty map made after [done()]: the mirror task leaves
-    its loop after the first initial-value event. *)
+(** the former F11 class (repaired by commit 290b96a in /repo): incremental subscription of a
+    non-empty map made after [done()]; kept to state that it is now mirrored correctly *)
 Definition late_incremental (md : mode) (s : obs) : bool :=
   match md with
   | Incremental => o_done s && negb (match o_hm s with [] => true | _ => false end)
@@ -379,7 +380,7 @@ Definition hand_ok (init : list (N * N)) (ops : list op) (k : nat) (md : mode) :
   existsb is_done_ev st = o_done sn /\
   match md with Snapshot => True | Incremental => existsb is_complete_ev st = true end.
 
-(** hypotheses: known classes and max_size *)
+(** hypotheses: known class F4 and max_size *)
 Definition silent_free_from (init : list (N * N)) (ops : list op) (k : nat) : bool :=
   silent_free (state_at init ops k) (skipn k ops).
 Definition late_incremental_at (init : list (N * N)) (ops : list op) (k : nat) (md : mode) : bool :=
